@@ -353,12 +353,81 @@ def run(ctx):
         else:
             ctx.violation("e2e history could not be run", {"e2e": ln, "result": out[:1500]}, no_input=True)
 
+    # ---- the generic readers on the real Repository API
+    rd_lines = ["%d" % rng.randint(1, 10 ** 9) for _ in range(3 if ctx.thorough() else 1)] if not ctx.replay else []
+    if ctx.replay and "readers" in json.load(open(ctx.replay))["witness"]:
+        rd_lines = [json.load(open(ctx.replay))["witness"]["readers"]]
+    rd_out = run_lines(impl, rd_lines, "readers", timeout=1500) if rd_lines else []
+    rd_stats = {"runs": len(rd_lines), "readers_observed": 0, "listing_readers_transparent_on_removed_snapshot": 0,
+                "unlisted_readers_serving_removed_snapshot": []}
+    table = (meta or {}).get("readers", {})
+    for ln, out in zip(rd_lines, rd_out):
+        tries = 0
+        while out.startswith("panic") and tries < 2:
+            tries += 1; out = run_lines(impl, [ln], "readers", timeout=1500)[0]
+        if not out.startswith("ok "):
+            ctx.violation("the generic readers could not be run on the Repository API", {"readers": ln, "result": out[:800]}, no_input=True)
+            continue
+        for item in out.split()[1:]:
+            name, _, rest = item.partition("=")
+            listed, a, b, still = rest.split(":")
+            rd_stats["readers_observed"] += 1
+            evs = table.get(name)
+            if evs is not None and ("L" in evs) != (listed == "1"):
+                # the table regenerated from the source disagrees with what the reader does below the cache
+                r["ok"] = False
+                r["failures"].append("reader table: %s has events %r in the source but %s the type at run time" % (name, evs, "lists" if listed == "1" else "does not list"))
+            if a == b:
+                if evs and evs[:1] == "L": rd_stats["listing_readers_transparent_on_removed_snapshot"] += 1
+                continue
+            lists_first = bool(evs) and evs[:1] == "L"
+            if not lists_first and a == "ok" and b == "err":
+                rd_stats["unlisted_readers_serving_removed_snapshot"].append(name)
+                sig = "explicit-id-read-of-removed-file"
+            else:
+                sig = None
+            ctx.violation("a snapshot removed by another process is returned through the cached handle and not without cache" if sig else
+                          "a reader that lists the type first returns a different outcome through the cached handle for a snapshot another process removed",
+                          {"readers": ln, "reader": name, "cached": a, "uncached": b, "source_events": evs,
+                           "how_to_replay": "echo '<readers>' > f; <target>/debug/c19 f readers   (harness/src/bin/c19.rs readers_case)"}, signature=sig)
+    # ---- recorded calls of the real commands on the cached handle, judged by the extracted Model.disciplined
+    tr_lines = ["%d" % rng.randint(1, 10 ** 9) for _ in range(6 if ctx.thorough() else 2)] if not ctx.replay else []
+    tr_out = run_lines(impl, tr_lines, "trace", timeout=1500) if tr_lines else []
+    tr_stats = {"runs": len(tr_lines), "commands_traced": 0, "ops_on_snapshot_and_index_files": 0, "traces_disciplined": 0, "explicit_id_control_flagged": 0}
+    for ln, out in zip(tr_lines, tr_out):
+        tries = 0
+        while out.startswith("panic") and tries < 2:
+            tries += 1; out = run_lines(impl, [ln], "trace", timeout=1500)[0]
+        parts = out.split(" ## ")
+        if not out.startswith("ok ") or len(parts) != 3 or model is None:
+            if model is not None:
+                ctx.violation("the commands could not be traced on the cached handle", {"trace": ln, "result": out[:800]}, no_input=True)
+            continue
+        names = parts[0].split()[1].split(",")
+        good, bad = run_lines(model, [parts[1], parts[2]])
+        gd = [fields(x).get("D") for x in good.split(" | ")[:-1]]
+        bd = [fields(x).get("D") for x in bad.split(" | ")[:-1]]
+        tr_stats["commands_traced"] += len(names); tr_stats["ops_on_snapshot_and_index_files"] += len(gd)
+        if all(d == "1" for d in gd):
+            tr_stats["traces_disciplined"] += 1
+        else:
+            k = gd.index("0")
+            ctx.violation("a command (%s) reads a snapshot or index file through the cached handle without listing the type first: commands_are_disciplined does not cover it" % ",".join(names),
+                          {"trace": ln, "case": parts[1], "op_index": k, "op": " ".join(map(str, parse_ops(parts[1])[k])),
+                           "how_to_replay": "echo '<trace>' > f; <target>/debug/c19 f trace"}, no_input=True)
+        if bd and bd[-1] == "0":
+            tr_stats["explicit_id_control_flagged"] += 1
+        else:
+            r["ok"] = False
+            r["failures"].append("negative control: get_snapshots(<full id>) after interference is not flagged by Model.disciplined")
     cov.update({
-        "evaluations": len(cases) + len(e2e_lines), "operations_compared": n_ops,
+        "command_traces": tr_stats,
+        "readers": rd_stats,
+        "evaluations": len(cases) + len(e2e_lines) + rd_stats["readers_observed"], "operations_compared": n_ops,
         "distinct_nontrivial": len(nontriv),
         "rule": "case = sequence of up to %d operations over 5 file types x ids 1..6 (+ ids 100..103 for misplaced files): cached-handle read_full / read_partial (ranges ending exactly at, one before and one past the end) / write (also rejected by the backend) / remove / list / check's pack clean-up, second-handle writes and removals on the same backend, files planted at canonical cache paths (honest stale/foreign, truncated, extended, wrong size; same-size corruption only in 'wild' cases), misplaced 64-hex files, deleted cache files; 60%% disciplined by construction, 25%% free (oracle on the disciplined prefix computed by the extracted Model.disciplined), 15%% wild (correspondence + listing oracle only); non-trivial = something was planted or removed behind the cache and a later read was answered while the cache was non-empty; distinct by full case text" % maxops,
         "samples": samples, "distribution": hist,
-        "traces_validated_against_impl": len(cases), "disagreements_checked": len(mism) + len(viol),
+        "traces_validated_against_impl": len(cases) + tr_stats["traces_disciplined"], "disagreements_checked": len(mism) + len(viol),
         "model_impl_mismatches": len(mism), "oracle_violations": len(viol),
         "transparency_oracle_ops": n_oracle_ops, "fully_disciplined_cases": n_disc_full, "listing_oracle_checks": n_list_checks,
         "e2e": e2e_stats, "e2e_histories_rerun_after_unrelated_panic": retried, "extracted_facts": meta,
